@@ -94,11 +94,11 @@ theorem cip_remove {k : Nat} {f : Nat → Nat → Nat → CbRes} {m : Map} {old 
     cases hb : tableBin t (bini (m.hash k) t.length) with
     | empty => rw [hb] at hf; cases hf
     | list ns =>
-      have hu := remove_post hg.1 ht hf (some (listBinCount (m.hash k) k ns 0))
+      have hu := remove_post hg.1 ht hf none
       simp only [hb, removeBin] at hu
       exact ⟨hu, trivial⟩
     | tree tr o =>
-      have hu := remove_post hg.1 ht hf (some 2)
+      have hu := remove_post hg.1 ht hf none
       simp only [hb, removeBin] at hu
       exact ⟨hu, trivial⟩
 
